@@ -70,12 +70,16 @@ def run(tier, seed, replay=None):
         cmds += ["%s stack 250 %d 5 | %s" % (h1, seed * 100 + 80 + i, runner) for i in range(3)]
         cmds += ["%s stack 250 %d 5 | %s" % (h2, seed * 100 + 90, runner)]
         cmds += ["%s skip 150 %d 5 | %s" % (h1, seed * 100 + 95 + i, runner) for i in range(2)]
+        cmds += ["%s opt 250 %d 4 | %s" % (h1, seed * 100 + 97 + i, runner) for i in range(2)]
+        cmds += ["%s wide 120 %d 3 | %s" % (h1, seed * 100 + 99, runner)]
     else:
         cmds = ["%s random 1500 %d 5 | %s" % (h1, seed * 100 + i, runner) for i in range(9)]
         cmds += ["%s random 1500 %d 5 | %s" % (h2, seed * 100 + 50 + i, runner) for i in range(6)]
         cmds += ["%s stack 4000 %d 6 | %s" % (h1, seed * 100 + 80 + i, runner) for i in range(3)]
         cmds += ["%s stack 4000 %d 6 | %s" % (h2, seed * 100 + 90, runner)]
         cmds += ["%s skip 3000 %d 6 | %s" % (h1, seed * 100 + 95 + i, runner) for i in range(2)]
+        cmds += ["%s opt 4000 %d 5 | %s" % (h1, seed * 100 + 97 + i, runner) for i in range(2)]
+        cmds += ["%s wide 2000 %d 4 | %s" % (h1, seed * 100 + 99, runner)]
     outs = run_pipeline(cmds, timeout=3300)
     mism, stats, known_lines = [], {}, []
     for (rc, out), c in zip(outs, cmds):
@@ -135,7 +139,7 @@ def run(tier, seed, replay=None):
         "distinct_nontrivial": stats.get("distinct_nontrivial", 0),
         "rule": "random grammars of 2-4 rules r0..r3 (calls to higher-numbered rules only) over all operators, the five rule types, built-ins, stack operations, bounded repetitions, "
                 "optional WHITESPACE/COMMENT of several modifiers (tags and PUSH_LITERAL in the grammar-extras half), written in pest syntax and compiled by the real pest_meta; "
-                "every accepted grammar x every input of length <= 4 (quick) / 5 (thorough) over {x, y, space}; plus stack-heavy grammars (two PUSHes, then bodies that POP/DROP/PEEK/PEEK_ALL/PEEK[i..j] under choices, optionals and repetitions) x all inputs <= 5/6 over {x, y}; plus skip-until grammars ((!(a | b | ..) ~ ANY)* with 1-4 stop literals sharing first bytes and prefixes, rule references inlined into the stop set, atomic and non-atomic rules) x all inputs <= 5/6 over {x, y}. Non-trivial = the real parse succeeded with at least one pair; grammars are distinct by construction of the seeds.",
+                "every accepted grammar x every input of length <= 4 (quick) / 5 (thorough) over {x, y, space}; plus stack-heavy grammars (two PUSHes, then bodies that POP/DROP/PEEK/PEEK_ALL/PEEK[i..j] under choices, optionals and repetitions) x all inputs <= 5/6 over {x, y}; plus skip-until grammars ((!(a | b | ..) ~ ANY)* with 1-4 stop literals sharing first bytes and prefixes, rule references inlined into the stop set, atomic and non-atomic rules) x all inputs <= 5/6 over {x, y}; plus optimizer-shaped grammars (common prefixes/tails of a choice, (x ~ y)* ~ x, literal runs, left-nested chains in rules of every modifier, called from every kind of rule, with WHITESPACE/COMMENT) x all inputs <= 4/5 over {x, y, space, #}; plus random and skip-until grammars on all inputs <= 3/4 over characters of every UTF-8 width {x, é, €, U+1F600, U+10FFFF}. Non-trivial = the real parse succeeded with at least one pair; grammars are distinct by construction of the seeds.",
         "samples": ["x=0 r=r0 in=787920 g=(r0 n (seq (rep (id r1)) (neg (id ANY))));(r1 a (cho (str 78) (str 79)));(WHITESPACE s (str 20))"],
         "grammars_accepted": stats.get("grammars", 0), "grammars_rejected": stats.get("rejected", 0), "ok_parses": stats.get("ok", 0),
         "real_panics": stats.get("panics", 0), "call_limit_hits": stats.get("limits", 0), "spec_undecided": stats.get("spec_undecided", 0),
